@@ -389,6 +389,7 @@ static void dump_prog (const char *tag, program_t * p)
 static char *calls[MAXCALL];
 static int ncalls = 0;
 static int reload_no = 0;
+static int cleaned = 0;		/* a case must start from an empty directory: replays are self-contained */
 
 static object_t *safe_load (const char *name)
 {
@@ -473,6 +474,7 @@ static int sys_cmd (char *line)
       bp[strlen (bp) - 1] = 0;	/* "<bindir>/" */
       strncat (bp, d, sizeof bp - strlen (bp) - 1);
       rm_rf (bp);
+      cleaned = 1;
       return 1;
     }
   if (!strcmp (tok[0], "file") && n == 3)
@@ -544,6 +546,11 @@ static int sys_cmd (char *line)
     {
       /* reload <top> <family>...: destruct the whole family, load <top>, dump every loaded family member, run calls */
       object_t *top;
+      if (!cleaned)
+        {
+          vh_out ("badcase reload-before-clean");
+          return 1;
+        }
       reload_no++;
       vh_out ("begin %d", reload_no);
       for (int i = 1; i < n; i++)
@@ -724,6 +731,8 @@ static int unit_cmd (char *line)
         {
           if (!*fld2[i])
             o += snprintf (out + o, sizeof out - o, "%snull", i ? "," : "");
+          else if (*fld2[i] < b2 || *fld2[i] >= b2 + size)
+            o += snprintf (out + o, sizeof out - o, "%swild", i ? "," : "");	/* not inside the loaded block */
           else
             o += snprintf (out + o, sizeof out - o, "%s%lld", i ? "," : "", (long long) (*fld2[i] - b2));
         }
